@@ -86,15 +86,15 @@ func (d *DB) commit(apply func() error) error {
 	}
 	d.Commits++
 	k := d.Commits
-	if d.Plan.FailCommitAt != 0 && k == d.Plan.FailCommitAt {
-		d.Fired = append(d.Fired, "commit_error")
-		return ErrInjected
-	}
 	if d.Plan.BeforeCommit != nil {
-		d.Plan.BeforeCommit(k)
+		d.Plan.BeforeCommit(k) // may arm FailCommitAt for this very commit, or park a scheduler
 		if d.Dead {
 			return ErrDead
 		}
+	}
+	if d.Plan.FailCommitAt != 0 && k == d.Plan.FailCommitAt {
+		d.Fired = append(d.Fired, "commit_error")
+		return ErrInjected
 	}
 	if err := apply(); err != nil {
 		return err
